@@ -159,6 +159,29 @@ package keeper
 
 //@ define slKey(o, a) = cat(g("x/delegation/types.KeyPrefixStakersByOperator"), join(o, a))
 
+//@ func (Keeper).HasStakerList
+//@   ensures[C02.hsl.spec] result == (get(ctx, "delegation", slKey(operator, assetID)) != nil)
+
+//@ func (Keeper).GetStakersByOperator
+//@   ensures[C02.gsbo.err] (err != nil) <==> (get(ctx, "delegation", slKey(operator, assetID)) == nil)
+
+// C02 (shares are zero whenever the pool amount is zero): every listed delegator's share with this operator and
+// asset is zero afterwards; only delegation rows are written
+//@ func (*Keeper).SetStakerShareToZero
+//@   modifies store(ctx, "delegation")
+//@   ensures[C02.ssz.noerr]  err == nil
+//@   ensures[C02.ssz.zero]   forall(j, 0, len(stakerList.Stakers), delShare(ctx, stakerList.Stakers[j], assetID, operator) == 0)
+//@   ensures[C02.ssz.others] forallb(k, !under(g("x/delegation/types.KeyPrefixRestakerDelegationInfo"), k) ==> get(ctx, "delegation", k) == old(get(ctx, "delegation", k)))
+//@ loop #1
+//@   invariant -1 <= rangeindex && rangeindex < len(stakerList.Stakers)
+//@   invariant forall(j, 0, rangeindex + 1, delShare(ctx, stakerList.Stakers[j], assetID, operator) == 0)
+//@   invariant forallb(k, !under(g("x/delegation/types.KeyPrefixRestakerDelegationInfo"), k) ==> get(ctx, "delegation", k) == old(get(ctx, "delegation", k)))
+
+//@ func (*Keeper).DeleteStakersListForOperator
+//@   modifies get(ctx, "delegation", slKey(operator, assetID))
+//@   ensures[C02.dslfo.gone] err == nil ==> get(ctx, "delegation", slKey(operator, assetID)) == nil
+//@   ensures[C02.dslfo.err]  (err != nil) <==> (old(get(ctx, "delegation", slKey(operator, assetID))) == nil)
+
 // Staker list maintenance: frame only (list content is not specified here)
 //@ func (*Keeper).AppendStakerForOperator
 //@   modifies get(ctx, "delegation", slKey(operator, assetID))
